@@ -281,6 +281,10 @@ def check_gym_space(index: RepoIndex, rep, rule: str) -> None:
           'if continuous else int) for k, v in space.items()})'
     if len(rets) == 1:
         r = w.expand(rets[0].value)
+        # methods / properties added to Space later are read as the expression they stand for
+        from ..inline import inline_methods_by_name
+        from ..view import VOCABULARY
+        r = inline_methods_by_name(index, r, exclude=VOCABULARY)
         if isinstance(r, ast.Call) and src(r.func) == 'gym.spaces.Dict' and len(r.args) == 1 \
                 and isinstance(r.args[0], ast.DictComp):
             dc = r.args[0]
@@ -331,10 +335,17 @@ def representation_switch(index: RepoIndex, rep, rule: str) -> None:
                   f'{meth} does not install {maker}(name, inner_env.{ispace})',
                   f'{meth} representation')
         new_repr = src(w.expand(r1[0].value)) if r1 else ''
+        # a helper that maps "no representation" to "no space" leaves a `= None` store on the
+        # path where the representation just installed is None: not the path of a switch
+        from ..guards import show as _show
+        none_paths = [e for e in r2 if isinstance(e.value, ast.Constant) and e.value.value is None
+                      and _show(w.expand_formula(strip_iter(e.guard))) in (
+                          f'self.outer_env.{rattr} is None', f'{new_repr} is None')]
+        r2 = [e for e in r2 if e not in none_paths]
         v2 = r2[0].value if len(r2) == 1 else None
         ok2 = v2 is not None and bool(r1) and (
             (r2[0].order > r1[0].order and
-             src(v2) == f'outer_space_to_gym_space(self.outer_env.{rattr}.space)')
+             src(w.expand(v2)) == f'outer_space_to_gym_space(self.outer_env.{rattr}.space)')
             or src(w.expand(v2)) == f'outer_space_to_gym_space({new_repr}.space)')
         rep.check(bool(ok2), rule, GYM, f'GymEnvironment.{meth}', m.node.lineno,
                   '; '.join(src(e.stmt) for e in r2),
